@@ -157,6 +157,17 @@ impl OrderedCallGraph {
             krate_collection,
             diagnostics,
         );
+        #[cfg(pavex_verif)]
+        super::verif_dump::emit(format!(
+            "{{\"ev\":\"cx_done\",\"ndiag\":{},\"g\":{}}}",
+            diagnostics.len() - n_diagnostics,
+            super::verif_dump::graph_json(
+                &call_graph.call_graph,
+                copy_checker,
+                component_db,
+                computation_db
+            )
+        ));
         if diagnostics.len() > n_diagnostics {
             return Err(());
         }
